@@ -101,6 +101,13 @@ CHECKS["C21"] = dict(engine="tlc+vh", level="model_checking", ref="4.10", techni
                      text="Design: all five invariants hold on the fallback design and the no-fallback switch violates one. Implementation: every (retention, history, crash phase, corruption) combination of the bound is executed and TLC checks newest-complete recovery, fallback, retention bound and id monotonicity on what was observed.",
                      note="Trusted: the store wrapper's emulation of partial FileStore::put / prune effects. Bounded: retention 1..3, <= 9 checkpoints, 8 crash phases, truncation as the corruption.")
 
+CHECKS["C19"] = dict(engine="tlc+vh", level="model_checking", ref="4.10", technique="TLA+ spec (CkptEquiv.tla) two-copy model checked by TLC for the count-based windows; CkptCases.tla generates (program class, stream) cases; every cut of every stream executed on the real engine (checkpoint -> JSON -> fresh engine -> restore) against the uninterrupted run",
+                     text="Design level: TLC shows invisibility for the count window and its violation for the faithful sliding-count restore. Implementation: 16 program classes x generated streams x EVERY cut position; any class other than the three recorded ones must be cut-invariant.",
+                     note="Oracle = the real engine's uninterrupted run (differential). Bounded: streams <= 11 events/watermarks, parameters 1..3. Findings are attributed per program class.")
+CHECKS["C20"] = dict(engine="tlc+vh", level="exploration", ref="4.10", technique="TLA+ spec (ValueCodec.tla) enumerates with TLC every (checkpoint section, value shape, time precision); each case round-trips a real engine checkpoint through the codec and a restore",
+                     text="The specification defines the value/section space exhaustively and which shapes JSON can carry; identity of the checkpoint and of the restored events is checked on the real code for all 224 combinations.",
+                     note="Trusted: Debug rendering as the equality of checkpoints. JSON format only (binary-codec feature is off in the default build).")
+
 NOT_APPLICABLE = {
     "C41": "parser totality over arbitrary strings: no state/transition system to specify; a TLA+ model would only enumerate token strings (fuzzing under another name)",
     "C43": "LSP handler robustness over arbitrary text/cursor: per-call robustness, no protocol state in the property; outside model-based verification",
